@@ -21,7 +21,7 @@ DESIGN_REF = "DESIGN.md §3.2, §4 C17"
 RULE = (
     "cases = (program: puts [(gap, delayed?)], removes [(gap, target element)], consumer think time, optional early "
     "close time; schedule).  Gaps from {0, d/2, d-eps, d, d+eps}, d = 0.5, eps = 2^-10.  Exhaustive part: DFS over all "
-    "schedules with <= k preemptions (k=1 quick, 2 thorough) of 6 fixed programs, line-level scheduling points in "
+    "schedules with <= k preemptions (k=1 quick, 2 thorough) of 8 fixed programs, line-level scheduling points in "
     "delayed_queue.py; random part: Hypothesis programs x random schedules (<= 3 preemptions at drawn positions).  "
     "non-trivial = a remove() or close() overlaps a get() call in the schedule, or a gap lies within eps of d; "
     "distinct = digest of (program, schedule decisions)"
@@ -180,6 +180,9 @@ FIXED = [
     {"puts": [(0.0, False), (0.0, False)], "removes": [(0.0, 1)], "think": D / 2, "close_at": None},
     {"puts": [(0.0, True)], "removes": [(D - EPS, 0)], "think": 0, "close_at": D + EPS},
     {"puts": [(D / 2, True), (0.0, True), (0.0, False)], "removes": [(D / 2, 0), (0.0, 2)], "think": 0, "close_at": None},
+    # a put() and a remove() that has to scan past a waiting delayed element become runnable at the same instant
+    {"puts": [(0.0, True), (D / 2, False)], "removes": [(D / 2, 1)], "think": 0, "close_at": None},
+    {"puts": [(0.0, True), (0.0, True), (D / 2, True)], "removes": [(D / 2, 2), (0.0, 1)], "think": 0, "close_at": None},
 ]
 
 
